@@ -46,6 +46,9 @@ var sdlAdversarial = []string{
 	``, `#`, "\ufeff", `schema {}`, `schema { query: Nope }`, `schema { query: Query } schema { query: Query } type Query { a: Int }`,
 	`extend schema { mutation: M }`, `type Query { a: Int } type M { b: Int } extend schema { mutation: M }`,
 	`extend schema { mutation: M } type M { b: Int } type Query { a: Int }`,
+	// nothing but extensions, naming types every root has, as the first thing a root is given
+	`extend schema { query: String }`, `extend schema { query: Int mutation: Boolean subscription: Time }`, `extend schema @deprecated { query: ID }`,
+	`extend schema { query: String }` + "\n##next-load##\n" + `type Query { a: Int }`, `extend scalar Time @deprecated extend schema { mutation: Float }`,
 	`extend schema @deprecated`, `extend schema`, `extend`, `extend type`, `extend type Nope { a: Int }`, `extend Query { a: Int }`,
 	`type Query { a: Int } extend type Query`, `type Query { a: Int } extend type Query { a: Int }`, `type Query { a: Int } extend enum Query { A }`,
 	`type Query { a: Int } extend interface Query { b: Int }`, `type Query { a: Int } extend union Query = Query`, `type Query { a: Int } extend input Query { b: Int }`,
